@@ -464,6 +464,16 @@ package meta
 //@   after call findIndicesNFAAtWithState: ghost viaNFA = true
 //@   ensures old(e.longest) ==> viaNFA
 
+// ---- literal-engine bypass (C01/C02/C17): Teddy and Aho-Corasick answer with literal occurrences alone, so they may
+// only be chosen for a complete literal set and a pattern without assertions (Teddy: a (?m)^ is re-checked by the
+// line-anchor wrapper, C16)
+//@ func selectLiteralStrategy
+//@   props C19 C01 C02 C17
+//@   requires literals != nil ==> seqOK(literals)
+//@   ensures result == UseTeddy || result == UseAhoCorasick || result == 0
+//@   ensures result == UseTeddy ==> literals != nil && len(literals.literals) > 0 && (forall i :: 0 <= i && i < len(literals.literals) ==> literals.literals[i].Complete) && !litAnalysis.hasNonLineAnchors && litAnalysis.hasTeddyLiterals
+//@   ensures result == UseAhoCorasick ==> literals != nil && len(literals.literals) > 0 && (forall i :: 0 <= i && i < len(literals.literals) ==> literals.literals[i].Complete) && !litAnalysis.hasAnchors && litAnalysis.hasAhoCorasickLiterals
+
 // ---- C02: the bounded-backtracker span dispatch. What is checked: every callee precondition on every path - in
 // particular that the ASCII-only backtracker (btAsciiOnly, ASSUMED of the engine's second instance) is consulted only
 // after the WHOLE searched input was tested to be ASCII - and the range of the reported span. That the engines return
